@@ -285,8 +285,7 @@ def agreement_cases(draw, tier="quick"):
     elif profile == "large":
         values = S.splitmix(draw(st.integers(0, 2 ** 40)), n, 1, 2 ** 20)
     elif profile == "near-equal-large":
-        base = draw(st.sampled_from([10 ** 6, 2 ** 24, 10 ** 9]))
-        values = [base * m + d for m, d in zip(S.splitmix(draw(st.integers(0, 2 ** 40)), n, 1, 4), S.splitmix(draw(st.integers(0, 2 ** 40)), n, 0, 50))]
+        values = S.near_equal_large(draw(st.integers(0, 2 ** 40)), n, draw(st.sampled_from(S.NEAR_EQUAL_BASES)))
     else:
         values = list(draw(S.planted_values(k, n, max_sum=200)))[:n]
         values = values + [1] * (11 - len(values)) if len(values) < 11 else values
